@@ -79,7 +79,7 @@ def maTok (A : MA Float) : String := s!"{spaceTok A.space} {A.length} {A.rank} {
 def outTok : Out Float → String
   | .ma A => "ma " ++ maTok A
   | .table n t => "table " ++ " ".intercalate ((List.range n).flatMap fun i => (List.range n).map fun j =>
-      match t i j with | none => "N" | some v => s!"[{v.size} {fl v.toList}]")
+      match t i j with | none => "N" | some v => s!"[ {v.size} {fl v.toList} ]")
 def stateTok (p : Prism Float) : String :=
   s!"om {maTok p.omega} h {maTok p.totalCorr} c {maTok p.directCorr}"
 def calcRes (s : DState) (r : Except Err (Prism Float × String)) : DState × String :=
